@@ -4,6 +4,7 @@ import (
 	"fmt"
 	"go/token"
 	"go/types"
+	"strings"
 
 	"golang.org/x/tools/go/ssa"
 )
@@ -187,6 +188,10 @@ func sliceRoots(v ssa.Value) map[ssa.Value]bool {
 			rec(y.X)
 		case *ssa.Call:
 			if b, ok := y.Call.Value.(*ssa.Builtin); ok && b.Name() == "append" {
+				rec(y.Call.Args[0])
+				return
+			}
+			if isAppendLike(y) {
 				rec(y.Call.Args[0])
 				return
 			}
@@ -864,4 +869,21 @@ func ruleCacheCopy(p *Prog, r *Result) {
 		})
 	}
 	r.floor("chunk cache get/set sites", n, 2)
+}
+
+// isAppendLike: a library function of the form AppendX(dst []T, ...) []T (strconv.AppendInt,
+// fmt.Appendf, ...): it extends and returns its first argument like the append builtin.
+func isAppendLike(c *ssa.Call) bool {
+	f := c.Call.StaticCallee()
+	if f == nil || f.Pkg == nil || len(c.Call.Args) == 0 {
+		return false
+	}
+	if !strings.HasPrefix(f.Name(), "Append") {
+		return false
+	}
+	res := f.Signature.Results()
+	if res.Len() != 1 {
+		return false
+	}
+	return types.Identical(res.At(0).Type(), c.Call.Args[0].Type())
 }
